@@ -1062,12 +1062,19 @@ class Node:
         if not predicate:
             raise ValueError("Predicate is required (use copy() instead)")
 
+        stopped = False
+
         def _visit(parent: Node) -> bool:
             """Return True if any descendant returned True."""
+            nonlocal stopped
             remove_nodes = []
             must_keep = False
 
             for n in parent.children:
+                if stopped:
+                    # Scan was stopped: keep only what was accepted so far
+                    remove_nodes.append(n)
+                    continue
                 res = call_predicate(predicate, n)
                 if res in (None, False):  # Keep only if has a `true` descendant
                     if _visit(n):
@@ -1088,16 +1095,14 @@ class Node:
                     else:
                         remove_nodes.append(n)
                 elif isinstance(res, StopTraversal):
-                    raise res
+                    stopped = True
+                    remove_nodes.append(n)
 
             for n in remove_nodes:
                 n.remove()
             return must_keep
 
-        try:
-            _visit(self)
-        except StopTraversal:
-            pass
+        _visit(self)
         return
 
     def from_dict(
